@@ -238,12 +238,27 @@ func (e *Explorer) explore(prefix []int, depth int) {
 	if len(x.Viol) > 0 {
 		e.handleViolations(x)
 	}
-	if (e.Execs+1)%97 == 0 && !x.Pruned {
-		// determinism self-check
+	if (e.Execs+1)%selfCheckEvery == 0 && !x.Pruned {
+		// determinism self-check. A divergence is a tool error when it shows
+		// again among two more replays (a single stray one is counted and
+		// reported in the result: see DESIGN §4.1).
+		same := func(a, b *Exec) bool {
+			return a.LogH == b.LogH && a.Outcome == b.Outcome && len(a.Choices) == len(b.Choices)
+		}
 		y := runExec(e.t, e.scn, x.Choices, nil, false)
 		e.Replays++
-		if y.LogH != x.LogH || y.Outcome != x.Outcome || len(y.Choices) != len(x.Choices) {
-			e.ToolErrs = append(e.ToolErrs, fmt.Sprintf("replay divergence: logH %x vs %x, outcome %q vs %q, points %d vs %d, choices %v", x.LogH, y.LogH, x.Outcome, y.Outcome, len(x.Choices), len(y.Choices), trimChoices(x.Choices)))
+		if !same(x, y) {
+			e.Flaky++
+			y2 := runExec(e.t, e.scn, x.Choices, nil, false)
+			y3 := runExec(e.t, e.scn, x.Choices, nil, false)
+			e.Replays += 2
+			if os.Getenv("VERIF_DEBUG_DIVERGE") != "" {
+				a := runExec(e.t, e.scn, x.Choices, nil, true)
+				fmt.Fprintf(os.Stderr, "DIVERGENCE logH %x vs %x (then %x %x); trace of another replay (%x):\n%s\n", x.LogH, y.LogH, y2.LogH, y3.LogH, a.LogH, strings.Join(a.Trace, "\n"))
+			}
+			if !same(y2, y3) || (!same(x, y2) && !same(y, y2)) {
+				e.ToolErrs = append(e.ToolErrs, fmt.Sprintf("replay divergence: logH %x vs %x vs %x vs %x, outcome %q vs %q, points %d vs %d, choices %v", x.LogH, y.LogH, y2.LogH, y3.LogH, x.Outcome, y.Outcome, len(x.Choices), len(y.Choices), trimChoices(x.Choices)))
+			}
 		}
 	}
 	for i := len(prefix); i < len(x.Points); i++ {
@@ -402,6 +417,14 @@ var memCap = func() uint64 {
 		return uint64(v) << 20
 	}
 	return 2500 << 20
+}()
+
+// selfCheckEvery: every n-th execution is replayed and compared (VERIF_SELFCHECK).
+var selfCheckEvery = func() int {
+	if v, err := strconv.Atoi(os.Getenv("VERIF_SELFCHECK")); err == nil && v > 0 {
+		return v
+	}
+	return 97
 }()
 
 // targetProp is the property the check was started for (VERIF_PROP).
